@@ -65,3 +65,10 @@ _PT = 'pyformlang/finite_automaton/transition_function.py'
 TARGETS.update({k: (_PT, 'TransitionFunction.' + k.split('.', 1)[1]) for k in ['DTF.add_transition', 'DTF.remove_transition', 'DTF.__call__']})
 
 from contracts.fa import VERIFIED_ELSEWHERE
+
+_TFP = 'pyformlang/finite_automaton/transition_function.py'
+SMOKE = [
+    ('DTF.add_transition', _TFP, "                if self._transitions[s_from][symb_by] != s_to:", "                if self._transitions[s_from][symb_by] == s_to:", 'break'),
+    ('DTF.__call__', _TFP, "                    return [self._transitions[s_from][symb_by]]", "                    return [s_from]", 'break'),
+    ('DTF.remove_transition', _TFP, "                s_to == self._transitions[s_from][symb_by]:", "                True:", 'break'),
+]
